@@ -203,7 +203,37 @@ def case(spec):
         elif kind == 'watford-hi':
             # Watford discs with a file at every start sector congruent to 2 modulo 256, and Acorn discs
             # with a full catalogue whose last entry starts in sector 2 with the Watford marker bytes
-            sub = idx % 4
+            sub = idx % 5
+            if sub == 4:
+                # Watford "large disc": bit 10 of the sector count lives in bit 2 of the catalogue's option byte
+                total = rng.choice([1280, 1440, 1100, 1024])
+                spt, tracks = 18, 80
+                far = rng.choice([900, 1000, 1023, 700])
+                ents = [dm.Entry('$', 'FAR', False, 0, 0, 600, far, rng.randbytes(600)),
+                        dm.Entry('$', 'LOW', False, 0, 0, 256, 4, rng.randbytes(256))]
+                more = [dm.Entry('W', 'SEC%d' % i, False, 0, 0, 256, 10 + i, rng.randbytes(256)) for i in range(rng.randint(0, 5))]
+                cat = dm.Cat(b'WATBIG', 0, 1, 0, total, dm.catalogue_order(ents), dm.catalogue_order(more))
+                s = dm.Surface('watford', tracks, spt, [dm.Volume(None, 0, tracks * spt, 0, cat)], rng.getrandbits(16), 0)
+                img = s.image()
+                path = os.path.join(tmp, 'big.sdd')
+                write_file(path, img)
+                files = {'big.sdd': img}
+                obs, bad = observe(dfsbin, path, ['0'], res, files)
+                res.events += 1
+                g = geometry_of(obs)
+                r_ = dfs(dfsbin, path, ['type', '--binary', 'FAR'])
+                res.execs += 1
+                lines = [rm.parse_info_line(l) for l in obs['info :0.#.*'][1].split(b'\n') if l]
+                exp = [rm.expected_info(e) for e in cat.all_entries()]
+                # (free is not judged: its arithmetic uses the 10-bit field only)
+                if g is None or g[2] * g[3] < total or r_.rc != 0 or r_.out != ents[0].body or lines != exp:
+                    res.violation('misidentified:watford-large-disc',
+                                  'Watford disc of %d sectors (large-disc flag): geometry %r, type FAR exit %s, %d of %d '
+                                  'catalogue lines' % (total, g, r_.rc, len(lines), len(exp)),
+                                  {'config': obs['show-config'][1], 'run': r_.brief()}, files, r_.argv)
+                res.sigs.append('watford-large|%d|%d' % (total, far))
+                res.sample = {'kind': kind, 'variant': 'watford-large', 'total': total}
+                return res
             if sub < 3:
                 start = [0x102, 0x202, 0x302][sub]
                 total = 1023
@@ -291,7 +321,7 @@ def case(spec):
 def main(tier, seed, scale=1.0):
     BIN['san'] = build.ensure('san')
     q = tier == 'quick'
-    counts = {'bodies': 40 if q else 1200, 'watford-hi': 16 if q else 200, 'opus': 40 if q else 800}
+    counts = {'bodies': 40 if q else 1200, 'watford-hi': 20 if q else 250, 'opus': 40 if q else 800}
     specs = []
     for k, n in counts.items():
         specs += [(seed, k, i, tier) for i in range(max(4, int(n * scale)))]
